@@ -59,6 +59,11 @@ def cases(tier, seed):
     out.append({"id": "fit-shortcut", "kind": "shortcut", "strategy": "nmpfit", "subset": False, "cost": 10})
     for edge in ("upper", "lower"):
         out.append({"id": "fit-pegged-%s" % edge, "kind": "pegged", "edge": edge, "strategy": "nmpfit", "subset": False, "cost": 10})
+    # the starting value of one parameter sits exactly on an edge of its prior ("no attenuation": alpha = 1 under Uniform(0.5, 1)) while
+    # the generating value lies a few percent inside: the minimiser must be able to leave the edge
+    for edge in ("upper", "lower"):
+        for strat in ("nmpfit", "scipy"):
+            out.append({"id": "fit-startedge-%s-%s" % (edge, strat), "kind": "startedge", "edge": edge, "strategy": strat, "subset": False, "cost": 10})
     for j, strat in enumerate(["nmpfit", "scipy"]):
         c = dict(out[j], id="fit-edges-%s" % strat, strategy=strat, start="perturbed", subset=False, tight_bounds=False, alpha_on_bound=False, all_on_bounds=True,
                  preflat=False, wl_from_data=False, theory="Mie", fit_lens_angle=False, seed=[seed, "edges", j])
@@ -90,6 +95,29 @@ def _run_pegged(case):
     return {"resid": {"recovery": fnum(err)}, "flags": {"within_bounds": bool(zp.lower_bound <= got["z"] <= zp.upper_bound)}, "got": got, "truth": truth, "err": err}
 
 
+def _run_startedge(case):
+    import holopy as hp
+    from holopy.core.prior import Uniform
+    from holopy.inference import AlphaModel, NmpfitStrategy, LeastSquaresScipyStrategy
+    from holopy.scattering import Sphere, calc_holo
+    optics = dict(medium_index=1.33, illum_wavelen=0.66, illum_polarization=(1, 0))
+    bounds = {"r": (0.3, 1.0), "x": (0, 4), "y": (0, 4), "z": (4, 12), "alpha": (0.5, 1.0)}
+    truth = {"x": 1.7, "y": 1.9, "z": 8.0, "r": 0.6, "alpha": 0.97 if case["edge"] == "upper" else 0.53}
+    guess = {"x": 1.751, "y": 1.957, "z": 8.24, "r": 0.618, "alpha": 1.0 if case["edge"] == "upper" else 0.5}
+    det = hp.detector_grid(shape=24, spacing=0.15)
+    data = calc_holo(det, Sphere(n=1.58, r=truth["r"], center=(truth["x"], truth["y"], truth["z"])), scaling=truth["alpha"], **optics)
+    pri = {k: Uniform(*bounds[k], guess=guess[k]) for k in bounds}
+    model = AlphaModel(Sphere(n=1.58, r=pri["r"], center=[pri["x"], pri["y"], pri["z"]]), alpha=pri["alpha"], noise_sd=0.01, **optics)
+    strat = NmpfitStrategy() if case["strategy"] == "nmpfit" else LeastSquaresScipyStrategy()
+    res = hp.fit(data, model, strategy=strat)
+    got = dict(zip(["r", "x", "y", "z", "alpha"], [res.parameters[k] for k in ("r", "center.0", "center.1", "center.2", "alpha")]))
+    err = max(abs(got[k] - truth[k]) / abs(truth[k]) for k in truth)
+    c_res = float(((model.forward(res.parameters, data).values - data.values) ** 2).sum())
+    c_guess = float(((model.forward(model.initial_guess, data).values - data.values) ** 2).sum())
+    return {"resid": {"recovery": fnum(err), "misfit_ratio_minus_1": fnum(max(0.0, (c_res - c_guess) / max(c_guess, 1e-300)))},
+            "flags": {"within_bounds": bool(all(bounds[k][0] <= got[k] <= bounds[k][1] for k in bounds))}, "got": got, "truth": truth, "err": err}
+
+
 def _run_shortcut(case):
     """hp.fit(data, scatterer, parameters=[names]) -- the short form that builds the model itself -- takes the scatterer's centre in any
     sequence type and gives the same fit (F117)"""
@@ -112,6 +140,8 @@ def run_case(case):
         return _run_pegged(case)
     if case.get("kind") == "shortcut":
         return _run_shortcut(case)
+    if case.get("kind") == "startedge":
+        return _run_startedge(case)
     import holopy as hp
     from holopy.core.prior import Uniform
     from holopy.core.metadata import update_metadata
